@@ -823,7 +823,12 @@ class Checker:
                                       "detail": detail, "run": prov})
 
         tries = 0
-        while sw["pairs"] < npairs and tries < npairs * 4 and time.monotonic() < t_end:
+        # the first two pairs (markup mode; plain mode with a court lookup) are
+        # completed even on a loaded machine: coverage of these two modes must not
+        # depend on how busy the host is (hard cap: 2.5 x the sweep budget)
+        t_hard = t_start + 2.5 * self.cfg["sweep_s"]
+        while sw["pairs"] < npairs and tries < npairs * 4 and (
+                time.monotonic() < t_end or (sw["pairs"] < 2 and time.monotonic() < t_hard)):
             tries += 1
             pi = tries
             a, b = doc(), doc()
@@ -937,7 +942,8 @@ class Checker:
                     absorb(scn, r, ("cancel-sweep", pi, scn["table"][0][2], scn.get("after_cancel")))
 
             forkpool.run_jobs(jobs(), exec_scenario, workers=_cpu(), timeout=90, on_result=got,
-                              deadline=t_end, stop=lambda: len(self.suspects) >= 40)
+                              deadline=t_end if sw["pairs"] > 2 else t_hard,
+                              stop=lambda: len(self.suspects) >= 40)
             if done[0] == len(points):
                 sw["complete_preemption_sweeps"] += 1
             if done[1] >= len(cpoints):
